@@ -5,8 +5,8 @@ Decided statically (DESIGN.md §4 C08):
 * status line: ``parse_response_start_line`` tests the whole line (``fullmatch``)
   against a regex whose language equals RFC 9112 ``status-line``; the status
   code is a bounded 3-digit group; no match -> HTTPInputError;
-* client framing table, by exhaustive finite-domain symbolic evaluation
-  (vt.x_symex) of the client slice of ``_read_message`` and of ``_read_body``:
+* client framing table, by exhaustive finite-domain abstract interpretation
+  (vt.x_absint) of the client slice of ``_read_message`` and of ``_read_body``:
   HEAD/304 -> no body; 1xx -> error with CL/TE, otherwise the next message is
   read and **no body is read for the interim response**; 204 -> error with a
   body, else empty; chunked / Content-Length / read-until-close selection;
@@ -40,10 +40,11 @@ from ..x_http import (
     RegexEnv, atom_edges, group_count, group_rx, leads_to_raise, only_through, reach_without, resolve_call, single_bindings,
     truthy_edges, canon_atom, self_modsets,
 )
-from ..x_symex import Evaluator, HeaderMap, Obj, UNK, Raised
+from ..x_absint import Evaluator, HeaderMap, Obj, UNK, Raised
 from . import c04 as _c04
+from . import c01 as _c01
 
-TECHNIQUE = "regex-automata equivalence + exhaustive finite-domain symbolic evaluation of the client framing decision + limit-before-delivery guard dominance"
+TECHNIQUE = "regex-automata equivalence + exhaustive finite-domain abstract interpretation of the client framing decision + limit-before-delivery guard dominance"
 EXPLANATION = (
     "The status-line regex is compared (language equivalence) with RFC 9112 status-line and the call-site method checked; the client branch of "
     "HTTP1Connection._read_message and the whole of _read_body are evaluated on abstract stubs for every (request method, status code, "
@@ -137,7 +138,7 @@ def check_status_line(ck, env):
 
 
 # ---------------------------------------------------------------------------------------
-# client framing by symbolic evaluation
+# client framing by abstract interpretation
 
 CODES = (100, 101, 103, 199, 200, 204, 205, 304, 404, 500)
 METHODS = ("GET", "HEAD", "POST")
@@ -219,7 +220,7 @@ def eval_client_slice(ck, fi, method, code, cl, te):
     for n in ast.walk(ast.Module(body=list(stmts), type_ignores=[])):
         if isinstance(n, ast.Attribute) and n.attr == "code" and isinstance(n.value, ast.Name):
             env[n.value.id] = sl
-    outs = ev.block(stmts, __import__("vt.x_symex", fromlist=["State"]).State(env))
+    outs = ev.block(stmts, __import__("vt.x_absint", fromlist=["State"]).State(env))
     res = set()
     for st, status in outs:
         # rebuild the per-path call sequence from the state's events
@@ -410,6 +411,30 @@ def check_limits(ck):
     # gzip
     gz = _c04.check_gzip(ck, LIVE, R="C08.gzip-limit")
 
+    R = "C08.gzip-drain"
+    gd = ck.func(H1, "_GzipMessageDelegate.data_received")
+    chunk_p = [p for p in gd.params() if p != "self"][0]
+    pm = q.parent_map(gd.node)
+    decs = [c for c in q.calls(gd.node) if q.call_attr(c) == "decompress"]
+    for c in decs:
+        loop = next((a for a in q.ancestors(pm, c) if isinstance(a, ast.While)), None)
+        if loop is None or not isinstance(loop.test, ast.Name):
+            raise AnalysisError("gzip data_received: decompress() is not inside a `while <pending input>` loop")
+        V = loop.test.id
+        ck.ob(R, gd, c, c.args and q.dotted(c.args[0]) == V, "decompress() consumes the pending input")
+        re_as = [st for st in loop.body if isinstance(st, ast.Assign) and any(q.dotted(t) == V for t in st.targets)]
+        ok = len(re_as) == 1 and isinstance(re_as[0].value, ast.Attribute) and re_as[0].value.attr == "unconsumed_tail"
+        ck.ob(R, gd, loop, ok, "the loop continues with the decompressor's unconsumed_tail until the input is used up (nothing of the chunk is dropped)")
+        inits = [st for st in q.walk_body(gd.node) if isinstance(st, ast.Assign) and any(q.dotted(t) == V for t in st.targets) and st not in re_as]
+        ck.ob(R, gd, loop, len(inits) == 1 and q.dotted(inits[0].value) == chunk_p, "the pending input starts as the whole received chunk")
+        exits = [x for x in q.walk_local(loop) if isinstance(x, (ast.Break, ast.Return))]
+        ck.ob(R, gd, loop, not exits, "the loop is left only when the input is used up or an error is raised")
+    ident = [c for n, c in gd.cfg.find(lambda x: isinstance(x, ast.Call) and q.call_attr(x) == "data_received" and x.args and q.dotted(x.args[0]) == chunk_p)]
+    nodec = atom_edges(gd.cfg, lambda a: False if q.dotted(a) == "self._decompressor" else (True if (isinstance(a, ast.Compare) and isinstance(a.ops[0], ast.Is) and q.dotted(a.left) == "self._decompressor" and q.is_const(a.comparators[0], None)) else None))
+    ck.ob(R, gd, gd.node, len(ident) >= 1, "without a decompressor the chunk is forwarded unchanged", construct="identity pass-through")
+    for n, c in gd.cfg.find(lambda x: x in ident):
+        ck.ob(R, gd, c, only_through(gd.cfg, n, nodec), "the raw chunk is forwarded only when no decompressor is installed")
+
     R = "C08.gzip-finish"
     gf = ck.func(H1, "_GzipMessageDelegate.finish")
     cfg = gf.cfg
@@ -462,6 +487,44 @@ def check_limits(ck):
                 ck.ob(R, hr, hr.node, "Content-Encoding" not in snap and snap.get("X-Consumed-Content-Encoding") == ce, "the consumed Content-Encoding is renamed for downstream delegates (they see identity data)", construct="content-encoding=%r renamed" % ce)
             else:
                 ck.ob(R, hr, hr.node, snap.get("Content-Encoding") == ce, "other content codings are passed through untouched", construct="content-encoding=%r untouched" % ce)
+
+
+def check_client_plumbing(ck):
+    """client-only preconditions of the framing table: the request method is remembered (HEAD detection)
+    and body bytes are delivered although the client has finished writing its request."""
+    R = "C08.no-body-table"
+    wh = ck.func(H1, "HTTP1Connection.write_headers")
+    ps = [p for p in wh.params() if p != "self"]
+    ms = self_modsets(ck.repo, H1, "HTTP1Connection")
+    for method in ("GET", "HEAD", "POST"):
+        ev = Evaluator(modset=lambda d: ms.get(d.split(".")[1]))
+        sl = Obj("request_line", method=method, path="/", version="HTTP/1.1")
+        me = Obj("self", is_client=True, _request_start_line=None, stream=Obj("stream"), _chunking_output=False, _expected_content_remaining=None)
+        env = {"self": me, ps[0]: sl, ps[1]: HeaderMap({"Host": "x"})}
+        for p_ in ps[2:]:
+            env[p_] = None
+        outs = [o for o in ev.run(wh.node, env) if o.kind != "raise"]
+        if not outs:
+            raise AnalysisError("write_headers (client) has no normal outcome")
+        for o in outs:
+            got = o.state.env["self"].attrs.get("_request_start_line")
+            ck.ob(R, wh, wh.node, isinstance(got, Obj) and got.attrs.get("method") == method, "the client remembers its request line (method %s) so that a response to HEAD is recognised" % method, construct="client write_headers remembers %s" % method)
+    R = "C08.delivery"
+    n = 0
+    for name in ("_read_fixed_body", "_read_chunked_body", "_read_body_until_close"):
+        f = ck.func(H1, "HTTP1Connection." + name)
+        cfg = f.cfg
+        dels = [(nd, c) for nd, c in cfg.find(lambda x: isinstance(x, ast.Call) and q.call_attr(x) == "data_received")]
+        ck.floor(R, len(dels), 1, "deliveries in %s" % name)
+        # client state while reading a response: is_client true, _write_finished true
+        dead = atom_edges(cfg, lambda a: False if q.dotted(a) == "self.is_client" else (False if q.dotted(a) == "self._write_finished" else None))
+        # an `A or B` test is split into atoms: the delivery must stay reachable when every edge that needs
+        # `not is_client` or `not _write_finished` is removed
+        r = reach_without(cfg, dead)
+        for nd, c in dels:
+            n += 1
+            ck.ob(R, f, c, nd.id in r, "in client mode body bytes are delivered although the request has been written completely (_write_finished is true)")
+    ck.floor(R, n, 3, "delivery sites")
 
 
 def check_assembly(ck):
@@ -544,16 +607,54 @@ def run(ck):
     ck.rule("C08.no-body-table", "client _read_message reads no body for HEAD/1xx/204/304, rejects 1xx with CL/TE, reads the framed body otherwise")
     ck.rule("C08.interim-no-body", "after an interim (1xx) response the nested read of the final response is the last thing read: no body is read for the interim response")
     ck.rule("C08.bodiless-agreement", "write_headers' zero-length set equals the client's no-body set")
+    ck.rule("C08.delivery", "every body reader delivers to the delegate in client mode regardless of _write_finished")
     ck.rule("C08.reader-limit", "every body reader (fixed, chunked, read-until-close) compares with the live _max_body_size before delivering")
     ck.rule("C08.gzip-limit", "gzip: bounded decompress, cumulative decompressed size compared with the limit before forwarding")
+    ck.rule("C08.gzip-drain", "gzip: every received chunk is decompressed completely (loop on unconsumed_tail); identity content is forwarded unchanged")
     ck.rule("C08.gzip-finish", "gzip: finish() is forwarded only if flush() left nothing; a remainder is an error")
     ck.rule("C08.gzip-selection", "gzip: decompressor iff Content-Encoding == gzip (case-insensitive); header renamed; headers forwarded")
     ck.rule("C08.assembly", "simple_httpclient: chunks appended/streamed unchanged, body = concatenation, code/headers of the final response")
     ck.rule("C08.client-wiring", "simple_httpclient creates the connection in client mode with its max_header_size/max_body_size/decompress settings")
+    # mechanisms shared with the server read path (same code decodes responses): decided by the C01 rule functions under C08 ids
+    shared = {
+        "header-block-delimiter": "the header block is read up to the first blank line: the delimiter denotes (CR? LF){2}",
+        "header-name": "HTTPHeaders.add stores only names that fullmatch RFC 9110 token; others raise HTTPInputError",
+        "header-value": "HTTPHeaders.add stores (HTTP mode) only values that fullmatch RFC 9110 field-value; others raise HTTPInputError",
+        "header-continuation": "obs-fold continuation text is validated as field-value before it is appended",
+        "strict-header-mode": "the connection parses header blocks in HTTP (latin-1 bytes) validation mode",
+        "header-line-split": "a header line is split at the first ':'; a line without ':' raises HTTPInputError",
+        "cl-conflict": "a comma-joined Content-Length is used only if all pieces are equal; otherwise HTTPInputError",
+        "cl-integer": "the fixed body length is parse_int(Content-Length) and a non-integer raises HTTPInputError",
+        "body-selection": "Transfer-Encoding is examined on every path; chunked reader only if chunked; read-until-close is client-only",
+        "te-strict": "chunked is recognised by equality with the lower-cased Transfer-Encoding value",
+        "te-other-raises": "any Transfer-Encoding other than chunked raises HTTPInputError",
+        "cl-te-conflict": "Content-Length together with Transfer-Encoding raises HTTPInputError",
+        "sint": "int() of wire text in http1connection.py is guarded by fullmatch of an ASCII digit/hex-digit regex on the same operand",
+        "int-no-crash": "no int() of wire text in the read call tree can escape as ValueError",
+        "chunk-size-line": "chunk-size line: CRLF-delimited, the whole line minus CRLF parsed byte-exactly by parse_hex_int, malformed -> HTTPInputError",
+        "chunk-end": "the chunked body ends only after a zero-size chunk",
+        "chunk-terminator": "the two bytes after chunk data and after the last chunk are compared with CRLF; a mismatch aborts",
+        "body-byte-count": "body data reads are bounded by, and decrement, the count of bytes still owed; exactly the bytes read are delivered",
+        "duplicate-fields-kept": "a repeated header field is appended to the earlier values (never replaces them); the combined value joins with ','",
+        "wire-text-exact": "wire text handed to the strict integer parsers is not normalised (strip/replace/lower/split) first",
+    }
+    for k, v in shared.items():
+        ck.rule("C08." + k, v)
     env = RegexEnv(ck.repo)
+    tree = _c01.read_tree(ck)
+    _c01.check_header_block(ck, env, RP="C08")
+    _c01.check_header_fields(ck, env, RP="C08")
+    _c01.check_multimap_for_framing(ck, RP="C08")
+    _c01.check_read_body(ck, tree, RP="C08")
+    _c01.check_transfer_encoding(ck, RP="C08")
+    _c01.check_ints(ck, env, tree, RP="C08")
+    _c01.check_chunked(ck, tree, RP="C08")
+    _c01.check_counted_reads(ck, ck.func(H1, "HTTP1Connection._read_fixed_body"), set(), RP="C08")
+    _c01.check_wire_exact(ck, tree, RP="C08")
     check_status_line(ck, env)
     check_framing(ck)
     check_limits(ck)
+    check_client_plumbing(ck)
     check_assembly(ck)
 
 
@@ -577,6 +678,28 @@ def _limit_after_delivery(root):
         if isinstance(st, ast.If) and "_max_body_size" in ast.unparse(st.test):
             body.append(body.pop(i))
             return True
+    return False
+
+
+def _undo_f29(root):
+    """remove the `<skip flag> = True` that directly follows the nested `await self._read_message(...)`"""
+    for node in ast.walk(root):
+        body = getattr(node, "body", None)
+        if isinstance(body, list):
+            for i, st in enumerate(body[:-1]):
+                if isinstance(st, ast.Expr) and isinstance(st.value, ast.Await) and "_read_message" in ast.unparse(st) and isinstance(body[i + 1], ast.Assign) and isinstance(body[i + 1].value, ast.Constant) and body[i + 1].value.value is True:
+                    del body[i + 1]
+                    return True
+    return False
+
+
+def _identity_empty(root):
+    for node in ast.walk(root):
+        if isinstance(node, ast.If) and ast.unparse(node.test) == "self._decompressor" and node.orelse:
+            for st in ast.walk(ast.Module(body=node.orelse, type_ignores=[])):
+                if isinstance(st, ast.Call) and q.call_attr(st) == "data_received":
+                    st.args = [parse_expr("chunk[:0]")]
+                    return True
     return False
 
 
@@ -627,6 +750,17 @@ MUTANTS = [
     ("1xx check looks only at Content-Length", _m(H1, RM, replace_expr(lambda n: isinstance(n, ast.BoolOp) and "'Transfer-Encoding' in headers" in _u(n) and "'Content-Length' in headers" in _u(n), lambda n: n.values[0])), "C08.no-body-table"),
     ("interim range 100..199 narrowed to 100 only", _m(H1, RM, replace_expr(lambda n: isinstance(n, ast.Compare) and _u(n) == "100 <= code < 200", lambda n: parse_expr("code == 100"))), "C08.no-body-table"),
     ("_read_body given 0 instead of the status code on the client", _m(H1, RM, replace_expr(lambda n: isinstance(n, ast.IfExp) and "resp_start_line.code" in _u(n), lambda n: ast.Constant(value=0))), "C08.no-body-table"),
+    ("F29 repair undone: body read for the interim response after the nested read", _m(H1, RM, remove_stmts(lambda st: isinstance(st, ast.Assign) and _u(st) == "skip_body = True" and False) if False else _undo_f29), "C08.interim-no-body"),
+    ("seeded C08-adv1: chunk size line cleaned with .strip() (whitespace-padded sizes accepted)", _m(H1, "HTTP1Connection._read_chunked_body", replace_expr(lambda n: isinstance(n, ast.Call) and _u(n.func) == "native_str" and "[:-2]" in _u(n), lambda n: parse_expr("native_str(chunk_len_str).strip()"))), ("C08.wire-text-exact", "C08.chunk-size-line")),
+    ("chunk size parsed with int(x, 16)", _m(H1, "HTTP1Connection._read_chunked_body", replace_expr(lambda n: isinstance(n, ast.Call) and _u(n.func) == "parse_hex_int", lambda n: ast.Call(func=ast.Name(id="int", ctx=ast.Load()), args=[n.args[0], ast.Constant(value=16)], keywords=[]))), ("C08.sint", "C08.chunk-size-line")),
+    ("Content-Length lower-cased/stripped before parse_int", _m(H1, RB, replace_expr(lambda n: isinstance(n, ast.Call) and _u(n.func) == "parse_int", lambda n: parse_expr('parse_int(headers["Content-Length"].strip())'))), ("C08.wire-text-exact", "C08.cl-integer")),
+    ("chunk terminator after data not checked", _m(H1, "HTTP1Connection._read_chunked_body", _c01._by_line(_if_raise("crlf"), "last")), "C08.chunk-terminator"),
+    ("chunk data read not bounded by the owed count", _m(H1, "HTTP1Connection._read_chunked_body", replace_expr(lambda n: isinstance(n, ast.Call) and _u(n.func) == "min", lambda n: parse_expr("self.params.chunk_size"))), "C08.body-byte-count"),
+    ("response header values trimmed with a bare .strip()", _m(HU, "HTTPHeaders.parse_line", replace_expr(lambda n: isinstance(n, ast.Call) and _u(n) == "value.strip(HTTP_WHITESPACE)", lambda n: parse_expr("value.strip()"))), "C08.wire-text-exact"),
+    ("TE: 'chunked' matched by suffix", _m(H1, "is_transfer_encoding_chunked", replace_expr(lambda n: isinstance(n, ast.Compare) and isinstance(n.ops[0], ast.Eq) and "chunked" in _u(n), lambda n: parse_expr('headers["Transfer-Encoding"].lower().endswith("chunked")'))), "C08.te-strict"),
+    ("client forgets its request line (HEAD responses not recognised)", _m(H1, "HTTP1Connection.write_headers", remove_stmts(lambda st: isinstance(st, ast.Assign) and _u(st) == "self._request_start_line = start_line")), "C08.no-body-table"),
+    ("body delivery gated on _write_finished only (client never sees the body)", _m(H1, "HTTP1Connection._read_fixed_body", replace_expr(lambda n: isinstance(n, ast.BoolOp) and _u(n) == "not self._write_finished or self.is_client", lambda n: n.values[0])), "C08.delivery"),
+    ("close-delimited body delivered only on the server", _m(H1, "HTTP1Connection._read_body_until_close", replace_expr(lambda n: isinstance(n, ast.BoolOp) and _u(n) == "not self._write_finished or self.is_client", lambda n: parse_expr("not self._write_finished and not self.is_client"))), "C08.delivery"),
     ("204 with a body accepted", _m(H1, RB, remove_stmts(_if_raise("is_chunked or"))), "C08.body-framing-table"),
     ("204 falls back to read-until-close", _m(H1, RB, remove_stmts(lambda st: isinstance(st, ast.If) and _u(st.test) == "code == 204")), "C08.body-framing-table"),
     ("204 rule applied to 205 as well", _m(H1, RB, replace_expr(lambda n: isinstance(n, ast.Compare) and _u(n) == "code == 204", lambda n: parse_expr("code in (204, 404)"))), "C08.body-framing-table"),
@@ -636,6 +770,9 @@ MUTANTS = [
     ("close-delimited body limit checked after delivery", _m(H1, "HTTP1Connection._read_body_until_close", _limit_after_delivery), "C08.reader-limit"),
     ("close-delimited body compared with max_buffer_size", _m(H1, "HTTP1Connection._read_body_until_close", replace_expr(lambda n: isinstance(n, ast.Attribute) and _u(n) == "self._max_body_size", lambda n: parse_expr("self.stream.max_buffer_size"))), "C08.reader-limit"),
     ("chunked reader: total limit removed", _m(H1, "HTTP1Connection._read_chunked_body", remove_stmts(_if_raise("total_size"))), "C08.reader-limit"),
+    ("gzip: only the first max_length piece of each chunk is decompressed (rest dropped)", _m(H1, "_GzipMessageDelegate.data_received", replace_stmt(lambda st: isinstance(st, ast.Assign) and "unconsumed_tail" in _u(st), lambda st: [parse_stmt('compressed_data = b""')])), "C08.gzip-drain"),
+    ("gzip: identity responses also run through a forward of an empty chunk", _m(H1, "_GzipMessageDelegate.data_received", _identity_empty), "C08.gzip-drain"),
+    ("repeated response header replaces the earlier one (last Content-Length wins)", _m(HU, "HTTPHeaders.add", replace_expr(lambda n: isinstance(n, ast.Compare) and _u(n) == "norm_name in self", lambda n: ast.Constant(value=False))), "C08.duplicate-fields-kept"),
     ("gzip: size check removed", _m(H1, "_GzipMessageDelegate.data_received", remove_stmts(_if_raise("_decompressed_body_size"))), "C08.gzip-limit"),
     ("gzip: flush() remainder ignored", _m(H1, "_GzipMessageDelegate.finish", remove_stmts(lambda st: isinstance(st, ast.If) and _u(st.test) == "tail")), "C08.gzip-finish"),
     ("gzip: flush() not called at all", _m(H1, "_GzipMessageDelegate.finish", remove_stmts(lambda st: isinstance(st, ast.If) and "_decompressor" in _u(st.test))), "C08.gzip-finish"),
